@@ -240,49 +240,32 @@ theorem uris_literal_decodes (uris : List (Option Bytes)) :
       C12.stringTokenToBytes (C12.valueToString (joinUris uris)) = .ok (joinUris uris) :=
   ⟨litOK_bytes _, C12.roundtrip _⟩
 
-/-- the `# dns_resolver "…";` statement stays on one line: the literal of any scalar consists of printable ASCII
-characters only (a line feed in the configured text is written `\n`), so the comment the lexer sees ends where the
-statement ends.  (`comment_dns_resolver` is only ever written by a plain `set_option` branch: `resolver_only_plain`.) -/
-theorem scalar_literal_one_line (v : PVal) (l : Bytes) (h : vts v = some l) : ∀ c ∈ l, 0x20 ≤ c ∧ c < 0x7f := by
-  cases v with
-  | int n =>
-    simp only [vts, Option.some.injEq] at h
-    subst h
-    intro c hc
-    simp only [List.mem_append, List.mem_singleton] at hc
-    rcases hc with (rfl | hc) | rfl
-    · decide
-    · simp only [decBytes, List.mem_map] at hc
-      obtain ⟨ch, hch, rfl⟩ := hc
-      have hd := Nat.isDigit_of_mem_toDigits (by decide) (by decide) hch
-      simp only [Char.isDigit, Bool.and_eq_true, decide_eq_true_eq, ge_iff_le] at hd
-      have h1 : (48 : Nat) ≤ ch.toNat := UInt32.le_iff_toNat_le.mp hd.1
-      have h2 : ch.toNat ≤ 57 := UInt32.le_iff_toNat_le.mp hd.2
-      have hm : (ch.toNat.toUInt8).toNat = ch.toNat := by simp [Nat.toUInt8]; omega
-      constructor
-      · rw [UInt8.le_iff_toNat_le, hm]; simpa using (by omega : 32 ≤ ch.toNat)
-      · rw [UInt8.lt_iff_toNat_lt, hm]; simpa using (by omega : ch.toNat < 127)
-    · decide
-  | str t => simp only [vts, Option.some.injEq] at h; subst h; exact C12.valueToString_printable' t
-  | bytes t => simp only [vts, Option.some.injEq] at h; subst h; exact C12.valueToString_printable' t
-  | none => simp only [vts, Option.some.injEq] at h; subst h; decide
-  | _ => simp [vts] at h
+/-- the literal written for any scalar consists of printable ASCII characters only: a line feed in configured text is
+written `\n`, never as a raw line break -/
+theorem scalar_literal_one_line (v : PVal) (l : Bytes) (h : vts v = some l) : ∀ c ∈ l, 0x20 ≤ c ∧ c < 0x7f :=
+  vts_printable h
 
-/-- the only branch of the chain that can write a `comment_dns_resolver` statement is a plain `block.set_option(label, value)` -/
-theorem resolver_only_plain :
-    actionTable.all (fun e => match e.2.2 with
-      | .blkOpt _ _ => true
-      | .blkConst _ l _ => !isComment (some l)
-      | .perms l _ _ => !isComment (some l)
-      | .injT l => !isComment (some l)
-      | _ => true) = true := by decide +kernel
+/-- The `# dns_resolver "…";` statement stays on one line, for every well-formed configuration: wherever the generated
+tree has a `comment_dns_resolver` node, none of its tokens contains a line feed, so the comment the lexer sees
+(`SH_COMMENT`, up to the end of the line) ends exactly where the statement ends and swallows nothing else; `reparsed`
+(the tree without that statement) is then the tree of the regenerated text. -/
+theorem resolver_comment_one_line (cfg : List (Nat × PVal)) (uris : List (Option Bytes)) (h : WellFormedCfg cfg = true)
+    (t : PTree) (ht : fromBeaconConfig cfg uris = .ok t) : t.kids.commentsOneLine = true := by
+  simp only [WellFormedCfg, Bool.and_eq_true] at h
+  unfold fromBeaconConfig at ht
+  cases hr : runSettings uris St.init cfg with
+  | error e => simp [hr] at ht
+  | ok st =>
+    simp only [hr, Except.ok.injEq] at ht
+    subst ht
+    exact finalize_col (runSettings_col uris cfg St.init st h.2 ⟨fun _ => rfl, fun _ h => by cases h⟩ hr)
 
 /-- every plain option states its value: the literal written for a number / text / bytes value decodes to the decimal
-digits / the text / the bytes -/
+digits / the text / the bytes, and the dictionary value `lit v` is the text between its quotes -/
 theorem scalar_literal_decodes (v : PVal) (hw : wfScalar v = true) :
-    ∃ s, vts v = some s ∧ C12.stringTokenToBytes s = .ok (scalarBytes v) := by
+    ∃ s, vts v = some s ∧ C12.stringTokenToBytes s = .ok (scalarBytes v) ∧ unquote s = lit v := by
   obtain ⟨s, hs⟩ := wfScalar_vts hw
-  exact ⟨s, hs, vts_decodes hw hs⟩
+  exact ⟨s, hs, vts_decodes hw hs, unquote_vts hw hs⟩
 
 /-- byte-valued options (frame headers, transform arguments, static headers) decode to the exact bytes -/
 theorem bytes_literal_decodes (v : Bytes) : C12.stringTokenToBytes (C12.valueToString v) = .ok v :=
@@ -290,9 +273,10 @@ theorem bytes_literal_decodes (v : Bytes) : C12.stringTokenToBytes (C12.valueToS
 
 /-! ### non-vacuity -/
 
-/-- sleeptime, a user agent with a quote, an http-get client program with binary arguments, an execute list, a gate list -/
+/-- sleeptime, a user agent with a quote, a backslash, a line feed and `é`, an http-get client program with binary arguments,
+an execute list, a gate list, a DNS resolver with a line feed (written as the `# dns_resolver` comment) -/
 def exampleCfg : List (Nat × PVal) := [
-  (3, .int 60000), (9, .str [65, 34, 66]), (8, .str []),
+  (3, .int 60000), (9, .str [65, 34, 92, 10, 233]), (8, .str []), (66, .str [56, 10, 56]),
   (12, .transform [.static .hdr [65, 58, 32, 66], .build (k "metadata"), .en .base64, .arg .prepend [0, 34, 92, 255],
     .arg .header [67]]),
   (11, .recover [.print, .prepend 3, .base64]),
@@ -301,9 +285,16 @@ def exampleCfg : List (Nat × PVal) := [
 
 example : WellFormedCfg exampleCfg = true := by decide +kernel
 example : (fromBeaconConfig exampleCfg [some [47, 120]]).toOption.map printable = some true := by decide +kernel
-example : (fromBeaconConfig exampleCfg [some [47, 120]]).toOption.map (fun t => noComment t.kids) = some true := by
+example : (fromBeaconConfig exampleCfg [some [47, 120]]).toOption.map (fun t => noComment t.kids) = some false := by
+  decide +kernel
+example : (fromBeaconConfig (exampleCfg.filter (·.1 != 66)) [some [47, 120]]).toOption.map (fun t => noComment t.kids) = some true := by
   decide +kernel
 example : (fromBeaconConfig exampleCfg [some [47, 120]]).toOption.map (fun t => (specDict t.reparsed).length) = some 14 := by
   decide +kernel
+/-- URIs: a missing one (odd number of SETTING_DOMAINS fields) is skipped; with none left the `uri` option is absent -/
+example : (expectedDict exampleCfg [some [47, 120], none, some []]).length = 14 ∧ (expectedDict exampleCfg [none]).length = 13 ∧
+    (expectedDict exampleCfg [some []]).length = 13 := by decide +kernel
+/-- the user agent `A"\<LF>é` is promised as the text `A\"\\\n\xe9` between the quotes -/
+example : lit (.str [65, 34, 92, 10, 233]) = b "A\\\"\\\\\\n\\xe9" := by decide +kernel
 
 end C13
